@@ -246,6 +246,7 @@ type restartPush struct {
 	errs    []string
 	done    []bool
 	status2 *jrpc2.ServerStatus
+	skipped bool
 }
 
 func (w *srvWorld) shutdownAndRestartPush(n int) *restartPush {
@@ -261,6 +262,14 @@ func (w *srvWorld) shutdownAndRestartPush(n int) *restartPush {
 		w.status = &st
 		w.waitSeq = w.seq()
 		r.Ev("waitstatus", "", 0, 0, fmt.Sprintf("%+v", st))
+		if w.running > 0 {
+			// a handler of the old connection is still running although WaitStatus
+			// has returned: that is C08's matter; whatever it does next would hit
+			// the new connection, so the restart phase is not judged in this run
+			rp.skipped = true
+			return
+		}
+		w.restartSeq = w.seq()
 		w.srv.Start(sEnd2)
 		r.Ev("restart", "", 0, 0, "")
 		for i := 0; i < n; i++ {
@@ -298,6 +307,9 @@ func (w *srvWorld) shutdownAndRestartPush(n int) *restartPush {
 		return nil
 	}
 	// the peer of the second connection goes away; the server exits
+	if rp.skipped {
+		return rp
+	}
 	r.Sim.Spawn("p2-close", func() { pEnd2.Close() })
 	r.Sim.Spawn("w-wait2", func() {
 		rt.Block("wait2", func() bool { return w.status != nil })
@@ -312,6 +324,9 @@ func (w *srvWorld) shutdownAndRestartPush(n int) *restartPush {
 
 func (rp *restartPush) check(w *srvWorld) {
 	r := w.r
+	if rp.skipped {
+		return
+	}
 	if w.status == nil {
 		r.Fail("callback-never-returned", "WaitStatus did not return after the peer closed")
 		return
